@@ -72,9 +72,9 @@ def canaries(obligs):
     seen = set()
     out = []
     for ob in obligs:
-        if ob.kind not in ('post', 'inv'):
+        if ob.kind not in ('post', 'inv') or '/inv-init' in ob.name:
             continue
-        key = (ob.fn, ob.kind)
+        key = (ob.fn, ob.kind, ob.name.split('#L')[1].split('.')[0] if '#L' in ob.name else '')
         if key in seen:
             continue
         seen.add(key)
